@@ -65,60 +65,83 @@ Qed.
 (* t is an answer the provider gave for x at some point of some load *)
 Definition resolved_of (ans : provider) (xt : cref * target) : Prop :=
   exists h, ans (fst xt) h = Resolved (snd xt).
+(* the provider did not find b and the builtins fallback resolved it *)
+Definition builtin_of (ans : provider) (bi : cref -> bool) (b : cref) : Prop :=
+  bi b = true /\ exists h, ans b h = NotFound.
 
-Lemma step_spec ans pend : forall h h' es d c,
-  step ans pend h = Some (h', es, d, c) ->
-  exists xts, es = map mk_entry xts /\ Forall (resolved_of ans) xts /\
-              Permutation pend (map fst xts ++ d) /\ c = length es.
+Lemma step_spec ans bi pend : forall h h' es d c,
+  step ans bi pend h = Some (h', es, d, c) ->
+  exists xts bs, es = map mk_entry xts /\ Forall (resolved_of ans) xts /\ Forall (builtin_of ans bi) bs /\
+                 Permutation pend (map fst xts ++ bs ++ d) /\ c = (length es + length bs)%nat.
 Proof.
   induction pend as [|x r IH]; intros h h' es d c Hs; cbn [step] in Hs.
-  - inversion Hs; subst. exists []. repeat split; constructor.
-  - destruct (ans x h) as [t| |] eqn:Ea; [| |discriminate].
-    + destruct (step ans r (cid x :: h)) as [[[[h1 es1] d1] c1]|] eqn:Er; [|discriminate].
-      inversion Hs; subst. destruct (IH _ _ _ _ _ Er) as [xts [He [Hf [Hp Hc]]]].
-      exists ((x, t) :: xts). repeat split.
+  - inversion Hs; subst. exists [], []. repeat split; constructor.
+  - destruct (ans x h) as [t| |] eqn:Ea.
+    + destruct (step ans bi r (cid x :: h)) as [[[[h1 es1] d1] c1]|] eqn:Er; [|discriminate].
+      inversion Hs; subst. destruct (IH _ _ _ _ _ Er) as [xts [bs [He [Hf [Hb [Hp Hc]]]]]].
+      exists ((x, t) :: xts), bs. repeat split; try assumption.
       * cbn [map]. rewrite He. reflexivity.
       * constructor; [exists h; exact Ea | exact Hf].
       * cbn [map fst app]. apply perm_skip. exact Hp.
-      * cbn [length]. rewrite Hc. reflexivity.
-    + destruct (step ans r (cid x :: h)) as [[[[h1 es1] d1] c1]|] eqn:Er; [|discriminate].
-      inversion Hs; subst. destruct (IH _ _ _ _ _ Er) as [xts [He [Hf [Hp Hc]]]].
-      exists xts. repeat split; try assumption.
-      eapply perm_trans; [apply perm_skip; exact Hp|]. apply Permutation_middle.
+      * cbn [length]. lia.
+    + destruct (step ans bi r (cid x :: h)) as [[[[h1 es1] d1] c1]|] eqn:Er; [|discriminate].
+      inversion Hs; subst. destruct (IH _ _ _ _ _ Er) as [xts [bs [He [Hf [Hb [Hp Hc]]]]]].
+      exists xts, bs. repeat split; try assumption.
+      eapply perm_trans; [apply perm_skip; exact Hp|].
+      rewrite !app_assoc. apply Permutation_middle.
+    + destruct (bi x) eqn:Eb; [|discriminate].
+      destruct (step ans bi r (cid x :: h)) as [[[[h1 es1] d1] c1]|] eqn:Er; [|discriminate].
+      inversion Hs; subst. destruct (IH _ _ _ _ _ Er) as [xts [bs [He [Hf [Hb [Hp Hc]]]]]].
+      exists xts, (x :: bs). repeat split; try assumption.
+      * constructor; [split; [exact Eb | exists h; exact Ea] | exact Hb].
+      * eapply perm_trans; [apply perm_skip; exact Hp|]. cbn [app]. apply Permutation_middle.
+      * cbn [length]. lia.
+Qed.
+
+Lemma perm_merge {A} (a b p a2 b2 d : list A) :
+  Permutation p (a2 ++ b2 ++ d) -> Permutation (a ++ b ++ p) ((a ++ a2) ++ (b ++ b2) ++ d).
+Proof.
+  intro H. eapply perm_trans; [apply Permutation_app_head, Permutation_app_head; exact H|].
+  rewrite <- !app_assoc. apply Permutation_app_head.
+  rewrite (app_assoc b a2), (app_assoc a2 b). apply Permutation_app_tail, Permutation_app_comm.
 Qed.
 
 (* invariant of one model under construction, relative to the references rs it started with *)
-Definition minv (ans : provider) (rs : list cref) (m : list cref * list entry) : Prop :=
-  exists xts, Permutation rs (map fst xts ++ fst m) /\ Forall (resolved_of ans) xts /\
-              Permutation (snd m) (map mk_entry xts) /\ StronglySorted start_le (snd m).
+Definition minv (ans : provider) (bi : cref -> bool) (rs : list cref) (m : list cref * list entry) : Prop :=
+  exists xts bs, Permutation rs (map fst xts ++ bs ++ fst m) /\ Forall (resolved_of ans) xts /\
+                 Forall (builtin_of ans bi) bs /\
+                 Permutation (snd m) (map mk_entry xts) /\ StronglySorted start_le (snd m).
 
-Lemma minv_init ans rs : minv ans rs (rs, []).
-Proof. exists []. cbn. repeat split; try constructor. apply Permutation_refl. Qed.
+Lemma minv_init ans bi rs : minv ans bi rs (rs, []).
+Proof. exists [], []. cbn. repeat split; try constructor. apply Permutation_refl. Qed.
 
-Lemma round_spec ans ms : forall rss h h' ms' c,
-  round ans ms h = Some (h', ms', c) -> Forall2 (minv ans) rss ms -> Forall2 (minv ans) rss ms'.
+Lemma round_spec ans bi ms : forall rss h h' ms' c,
+  round ans bi ms h = Some (h', ms', c) -> Forall2 (minv ans bi) rss ms -> Forall2 (minv ans bi) rss ms'.
 Proof.
   induction ms as [|[pend lst] r IH]; intros rss h h' ms' c Hr Hinv; cbn [round] in Hr.
   - inversion Hr; subst. exact Hinv.
-  - destruct (step ans pend h) as [[[[h1 es] d] c1]|] eqn:Es; [|discriminate].
-    destruct (round ans r h1) as [[[h2 r'] c2]|] eqn:Er; [|discriminate].
+  - destruct (step ans bi pend h) as [[[[h1 es] d] c1]|] eqn:Es; [|discriminate].
+    destruct (round ans bi r h1) as [[[h2 r'] c2]|] eqn:Er; [|discriminate].
     inversion Hr; subst. inversion Hinv as [|rs m rss' ms0 Hm Hrest]; subst.
     constructor; [|eapply IH; eassumption].
-    destruct Hm as [xts [Hp [Hf [Hl Hs]]]]. cbn [fst snd] in *.
-    destruct (step_spec _ _ _ _ _ _ _ Es) as [xts2 [He [Hf2 [Hp2 _]]]].
-    exists (xts ++ xts2). cbn [fst snd]. repeat split.
-    + rewrite map_app, <- app_assoc. eapply perm_trans; [exact Hp|].
-      apply Permutation_app_head. exact Hp2.
+    destruct Hm as [xts [bs [Hp [Hf [Hb [Hl Hs]]]]]]. cbn [fst snd] in *.
+    destruct (step_spec _ _ _ _ _ _ _ _ Es) as [xts2 [bs2 [He [Hf2 [Hb2 [Hp2 _]]]]]].
+    exists (xts ++ xts2), (bs ++ bs2). cbn [fst snd]. repeat split.
+    + rewrite map_app. eapply perm_trans; [exact Hp|]. apply perm_merge. exact Hp2.
+    + apply Forall_app; split; assumption.
     + apply Forall_app; split; assumption.
     + eapply perm_trans; [apply Permutation_sym, sort_entries_perm|].
       rewrite map_app, He. apply Permutation_app_tail. exact Hl.
     + apply sort_entries_sorted.
 Qed.
 
-(* what the finished list of one model looks like *)
-Definition listed (ans : provider) (rs : list cref) (es : list entry) : Prop :=
+(* what the finished list of one model looks like: sorted; one entry for each reference the
+   provider resolved to a model object (xts), none for the references resolved through the
+   builtins (bs); together they are all the references of the model *)
+Definition listed (ans : provider) (bi : cref -> bool) (rs : list cref) (es : list entry) : Prop :=
   StronglySorted start_le es /\
-  exists xts, map fst xts = rs /\ Forall (resolved_of ans) xts /\ Permutation es (map mk_entry xts).
+  exists xts bs, Permutation rs (map fst xts ++ bs) /\ Forall (resolved_of ans) xts /\
+                 Forall (builtin_of ans bi) bs /\ Permutation es (map mk_entry xts).
 
 Lemma unresolved_zero ms : unresolved ms = 0%nat -> Forall (fun m : list cref * list entry => fst m = []) ms.
 Proof.
@@ -127,22 +150,18 @@ Proof.
   constructor; [destruct (fst m); [reflexivity | cbn in H; lia] | apply IH; lia].
 Qed.
 
-Lemma minv_done ans rs m : fst m = [] -> minv ans rs m -> listed ans rs (snd m).
+Lemma minv_done ans bi rs m : fst m = [] -> minv ans bi rs m -> listed ans bi rs (snd m).
 Proof.
-  intros Hd [xts [Hp [Hf [Hl Hs]]]]. rewrite Hd, app_nil_r in Hp. split; [exact Hs|].
-  destruct (Permutation_map_inv _ _ Hp) as [xts' [Hrs Hpx]].
-  exists xts'. repeat split.
-  - symmetry; exact Hrs.
-  - eapply Permutation_Forall; eassumption.
-  - eapply perm_trans; [exact Hl|]. apply Permutation_map. exact Hpx.
+  intros Hd [xts [bs [Hp [Hf [Hb [Hl Hs]]]]]]. rewrite Hd, app_nil_r in Hp. split; [exact Hs|].
+  exists xts, bs. repeat split; assumption.
 Qed.
 
-Lemma loop_spec ans fuel : forall rss ms h outs,
-  loop fuel ans ms h = Ok outs -> Forall2 (minv ans) rss ms -> Forall2 (listed ans) rss outs.
+Lemma loop_spec ans bi fuel : forall rss ms h outs,
+  loop fuel ans bi ms h = Ok outs -> Forall2 (minv ans bi) rss ms -> Forall2 (listed ans bi) rss outs.
 Proof.
   induction fuel as [|f IH]; intros rss ms h outs Hl Hinv; cbn [loop] in Hl; [discriminate|].
-  destruct (round ans ms h) as [[[h' ms'] c]|] eqn:Er; [|discriminate].
-  pose proof (round_spec _ _ _ _ _ _ _ Er Hinv) as Hinv'.
+  destruct (round ans bi ms h) as [[[h' ms'] c]|] eqn:Er; [|discriminate].
+  pose proof (round_spec _ _ _ _ _ _ _ _ Er Hinv) as Hinv'.
   destruct (Nat.ltb 0 (unresolved ms') && Nat.ltb 0 c)%bool eqn:Eb; [eapply IH; eassumption|].
   destruct (Nat.ltb 0 (unresolved ms')) eqn:Eu; [discriminate|].
   inversion Hl; subst. apply Nat.ltb_ge in Eu.
@@ -151,15 +170,118 @@ Proof.
   inversion Hz; subst. constructor; [apply minv_done; assumption | apply IHf; assumption].
 Qed.
 
-Theorem load_listed ans models outs :
-  load ans models = Ok outs -> Forall2 (listed ans) models outs.
+Theorem load_listed ans bi models outs :
+  load ans bi models = Ok outs -> Forall2 (listed ans bi) models outs.
 Proof.
   unfold load. intro Hl. eapply loop_spec; [exact Hl|].
   clear. induction models as [|rs r IH]; cbn [map]; constructor; [apply minv_init | exact IH].
 Qed.
 
+(* every model of the load - not only the main one - ends with a sorted list *)
+Theorem load_all_sorted ans bi models outs :
+  load ans bi models = Ok outs -> length outs = length models /\ Forall (StronglySorted start_le) outs.
+Proof.
+  intro Hl. apply load_listed in Hl.
+  induction Hl as [|rs es rss ess [Hs _] _ [IH1 IH2]]; [split; [reflexivity | constructor]|].
+  split; [cbn [length]; rewrite IH1; reflexivity | constructor; assumption].
+Qed.
+
+(* without builtins every reference of the model has its entry *)
+Definition listed_all (ans : provider) (rs : list cref) (es : list entry) : Prop :=
+  StronglySorted start_le es /\
+  exists xts, map fst xts = rs /\ Forall (resolved_of ans) xts /\ Permutation es (map mk_entry xts).
+
+Lemma listed_no_builtins ans bi rs es :
+  (forall x, In x rs -> bi x = false) -> listed ans bi rs es -> listed_all ans rs es.
+Proof.
+  intros Hbi [Hs [xts [bs [Hp [Hf [Hb Hl]]]]]]. split; [exact Hs|].
+  assert (bs = []) as ->.
+  { destruct bs as [|b bs']; [reflexivity|]. exfalso.
+    inversion Hb as [|b0 l0 [Hb1 _] _]; subst.
+    assert (In b rs) by (eapply Permutation_in; [apply Permutation_sym; exact Hp | apply in_or_app; right; left; reflexivity]).
+    rewrite (Hbi _ H) in Hb1. discriminate. }
+  rewrite app_nil_r in Hp.
+  destruct (Permutation_map_inv _ _ Hp) as [xts' [Hrs Hpx]].
+  exists xts'. repeat split.
+  - symmetry; exact Hrs.
+  - eapply Permutation_Forall; eassumption.
+  - eapply perm_trans; [exact Hl|]. apply Permutation_map. exact Hpx.
+Qed.
+
+Theorem load_listed_no_builtins ans bi models outs :
+  (forall x, bi x = false) ->
+  load ans bi models = Ok outs -> Forall2 (listed_all ans) models outs.
+Proof.
+  intros Hbi Hl. apply load_listed in Hl.
+  induction Hl as [|rs es rss ess H _ IH]; constructor; [|exact IH].
+  eapply listed_no_builtins; [intros x _; apply Hbi | exact H].
+Qed.
+
 (* ================================================================ exact order *)
-(* a list sorted strictly and a sorted permutation of it are equal *)
+Lemma lt_sorted_nodup (l : list N) : StronglySorted N.lt l -> NoDup l.
+Proof.
+  induction l as [|x r IH]; intro H; [constructor|].
+  apply StronglySorted_inv in H as [Hr Hx]. constructor; [|apply IH; exact Hr].
+  intro Hin. rewrite Forall_forall in Hx. specialize (Hx _ Hin). lia.
+Qed.
+
+Lemma nodup_app_l {A} (a b : list A) : NoDup (a ++ b) -> NoDup a.
+Proof.
+  induction a as [|x r IH]; intro H; [constructor|]. cbn [app] in H.
+  apply NoDup_cons_iff in H as [Hx Hr]. constructor; [|apply IH; exact Hr].
+  intro Hin. apply Hx. apply in_or_app; left; exact Hin.
+Qed.
+
+Lemma le_nodup_lt (l : list N) : StronglySorted N.le l -> NoDup l -> StronglySorted N.lt l.
+Proof.
+  induction l as [|x r IH]; intros H Hn; [constructor|].
+  apply StronglySorted_inv in H as [Hr Hx]. apply NoDup_cons_iff in Hn as [Hnx Hnr].
+  constructor; [apply IH; assumption|]. rewrite Forall_forall in *. intros y Hy.
+  specialize (Hx _ Hy). assert (x <> y) by (intro; subst; contradiction). lia.
+Qed.
+
+Lemma mk_sorted_starts xts :
+  StronglySorted start_le (map mk_entry xts) -> StronglySorted N.le (map cstart (map fst xts)).
+Proof.
+  induction xts as [|[x t] r IH]; cbn [map fst]; intro H; [constructor|].
+  apply StronglySorted_inv in H as [Hr Ha]. constructor; [apply IH; exact Hr|].
+  rewrite Forall_forall in *. intros p Hp. apply in_map_iff in Hp as [y [<- Hy]].
+  apply in_map_iff in Hy as [[y' u] [<- Hyu]]. cbn [fst].
+  specialize (Ha (mk_entry (y', u)) (in_map _ _ _ Hyu)).
+  unfold start_le in Ha. rewrite !mk_entry_eq in Ha. cbn [e_start] in Ha. exact Ha.
+Qed.
+
+(* the list is exactly the entries of the provider-resolved references, in text order *)
+Definition listed_in_order (ans : provider) (bi : cref -> bool) (rs : list cref) (es : list entry) : Prop :=
+  exists xts bs, es = map mk_entry xts /\ Permutation rs (map fst xts ++ bs) /\
+                 Forall (resolved_of ans) xts /\ Forall (builtin_of ans bi) bs /\
+                 StronglySorted N.lt (map cstart (map fst xts)).
+
+Lemma listed_order ans bi rs es :
+  StronglySorted N.lt (map cstart rs) -> listed ans bi rs es -> listed_in_order ans bi rs es.
+Proof.
+  intros Hrs [Hs [xts [bs [Hp [Hf [Hb Hl]]]]]].
+  destruct (Permutation_map_inv _ _ Hl) as [xts' [He Hpx]]. subst es.
+  assert (Hp' : Permutation rs (map fst xts' ++ bs)).
+  { eapply perm_trans; [exact Hp|]. apply Permutation_app_tail, Permutation_map. exact Hpx. }
+  exists xts', bs. repeat split; try assumption.
+  - eapply Permutation_Forall; eassumption.
+  - apply le_nodup_lt; [apply mk_sorted_starts; exact Hs|].
+    apply lt_sorted_nodup in Hrs.
+    eapply Permutation_NoDup in Hrs; [|apply Permutation_map; exact Hp'].
+    rewrite map_app in Hrs. eapply nodup_app_l; exact Hrs.
+Qed.
+
+Theorem load_listed_in_order ans bi models outs :
+  Forall (fun rs => StronglySorted N.lt (map cstart rs)) models ->
+  load ans bi models = Ok outs -> Forall2 (listed_in_order ans bi) models outs.
+Proof.
+  intros Hs Hl. apply load_listed in Hl.
+  induction Hl as [|rs es rss ess H Hrest IH]; [constructor|].
+  inversion Hs; subst. constructor; [apply listed_order; assumption | apply IH; assumption].
+Qed.
+
+(* without builtins: entry by entry the references of the model, in their order *)
 Lemma sorted_perm_eq (l1 : list entry) : forall l2,
   StronglySorted start_lt l1 -> StronglySorted start_le l2 -> Permutation l1 l2 -> l1 = l2.
 Proof.
@@ -185,19 +307,50 @@ Proof.
   unfold start_lt. rewrite !mk_entry_eq. cbn [e_start]. apply Ha. apply in_map. apply (in_map fst) in Hy. exact Hy.
 Qed.
 
-(* one-to-one, in the order of the reference texts *)
-Definition listed_in_order (ans : provider) (rs : list cref) (es : list entry) : Prop :=
+Definition listed_exactly (ans : provider) (rs : list cref) (es : list entry) : Prop :=
   exists xts, map fst xts = rs /\ Forall (resolved_of ans) xts /\ es = map mk_entry xts.
 
-Theorem load_listed_in_order ans models outs :
+Theorem load_listed_exactly ans bi models outs :
+  (forall x, bi x = false) ->
   Forall (fun rs => StronglySorted N.lt (map cstart rs)) models ->
-  load ans models = Ok outs -> Forall2 (listed_in_order ans) models outs.
+  load ans bi models = Ok outs -> Forall2 (listed_exactly ans) models outs.
 Proof.
-  intros Hs Hl. apply load_listed in Hl.
+  intros Hbi Hs Hl. apply (load_listed_no_builtins _ _ _ _ Hbi) in Hl.
   induction Hl as [|rs es rss ess [Hsort [xts [Hrs [Hf Hp]]]] Hrest IH]; [constructor|].
   inversion Hs; subst. constructor; [|apply IH; assumption].
   exists xts. repeat split; try assumption.
   symmetry. apply sorted_perm_eq; [apply map_mk_sorted; assumption | exact Hsort | apply Permutation_sym; exact Hp].
+Qed.
+
+(* ================================================================ models already in a repository *)
+Definition repo_listed (ans : provider) (bi : cref -> bool) (g : gmodel) (es : list entry) : Prop :=
+  match g with Fresh rs => listed ans bi rs es | Done es0 => es = es0 end.
+
+Lemma merge_spec ans bi gms : forall outs,
+  Forall2 (listed ans bi) (fresh_refs gms) outs -> Forall2 (repo_listed ans bi) gms (merge gms outs).
+Proof.
+  induction gms as [|[rs|es0] r IH]; intros outs H; cbn [merge].
+  - constructor.
+  - cbn [fresh_refs flat_map app] in H. inversion H as [|? o ? outs' Ho Hr]; subst.
+    constructor; [exact Ho | apply IH; exact Hr].
+  - constructor; [reflexivity | apply IH; exact H].
+Qed.
+
+Theorem load_repo_listed ans bi gms outs :
+  load_repo ans bi gms = Ok outs -> Forall2 (repo_listed ans bi) gms outs.
+Proof.
+  unfold load_repo. destruct (load ans bi (fresh_refs gms)) as [o| | |] eqn:El; try discriminate.
+  intro H. inversion H; subst. apply merge_spec. apply load_listed. exact El.
+Qed.
+
+Theorem load_repo_all_sorted ans bi gms outs :
+  Forall (fun g => match g with Done es => StronglySorted start_le es | Fresh _ => True end) gms ->
+  load_repo ans bi gms = Ok outs -> Forall (StronglySorted start_le) outs.
+Proof.
+  intros Hd Hl. apply load_repo_listed in Hl.
+  induction Hl as [|g es gms' outs' Hg _ IH]; [constructor|].
+  inversion Hd; subst. constructor; [|apply IH; assumption].
+  destruct g as [rs|es0]; cbn in Hg; [destruct Hg as [Hs _]; exact Hs | subst; assumption].
 Qed.
 
 (* ================================================================ trees *)
@@ -522,13 +675,24 @@ Proof.
   induction l as [|a r IH]; intros l' H; cbn [map] in H; inversion H; subst; constructor; [assumption | apply IH; assumption].
 Qed.
 
-Theorem load_trees_in_order ans trees outs :
+Theorem load_trees_in_order ans bi trees outs :
   Forall (fun t => wfb t = true) trees ->
-  load_trees ans trees = Ok outs ->
-  Forall2 (fun t es => listed_in_order ans (refs_pre t) es) trees outs.
+  load_trees ans bi trees = Ok outs ->
+  Forall2 (fun t es => listed_in_order ans bi (refs_pre t) es) trees outs.
 Proof.
   intros Hwf Hl. unfold load_trees in Hl. apply Forall2_map_l.
   apply load_listed_in_order; [|exact Hl].
+  rewrite Forall_map. eapply Forall_impl; [|exact Hwf]. intros t Ht. apply tree_refs_increasing. exact Ht.
+Qed.
+
+Theorem load_trees_exactly ans bi trees outs :
+  (forall x, bi x = false) ->
+  Forall (fun t => wfb t = true) trees ->
+  load_trees ans bi trees = Ok outs ->
+  Forall2 (fun t es => listed_exactly ans (refs_pre t) es) trees outs.
+Proof.
+  intros Hbi Hwf Hl. unfold load_trees in Hl. apply Forall2_map_l.
+  apply (load_listed_exactly _ bi); [exact Hbi| |exact Hl].
   rewrite Forall_map. eapply Forall_impl; [|exact Hwf]. intros t Ht. apply tree_refs_increasing. exact Ht.
 Qed.
 
@@ -541,36 +705,46 @@ Lemma source_facts :
 Proof. repeat split; reflexivity. Qed.
 
 (* ================================================================ the fuel of [load] always suffices *)
-Lemma step_count ans pend h h' es d c :
-  step ans pend h = Some (h', es, d, c) -> length pend = (c + length d)%nat.
+Lemma step_count ans bi pend h h' es d c :
+  step ans bi pend h = Some (h', es, d, c) -> length pend = (c + length d)%nat.
 Proof.
-  intro Hs. destruct (step_spec _ _ _ _ _ _ _ Hs) as [xts [He [_ [Hp Hc]]]].
-  apply Permutation_length in Hp. rewrite app_length, map_length in Hp.
-  rewrite Hc, He, map_length. exact Hp.
+  intro Hs. destruct (step_spec _ _ _ _ _ _ _ _ Hs) as [xts [bs [He [_ [_ [Hp Hc]]]]]].
+  apply Permutation_length in Hp. rewrite !app_length, map_length in Hp.
+  rewrite Hc, He, map_length. lia.
 Qed.
 
-Lemma round_count ans ms : forall h h' ms' c,
-  round ans ms h = Some (h', ms', c) -> unresolved ms = (c + unresolved ms')%nat.
+Lemma round_count ans bi ms : forall h h' ms' c,
+  round ans bi ms h = Some (h', ms', c) -> unresolved ms = (c + unresolved ms')%nat.
 Proof.
   unfold unresolved. induction ms as [|[pend lst] r IH]; intros h h' ms' c Hr; cbn [round] in Hr.
   - inversion Hr; subst. reflexivity.
-  - destruct (step ans pend h) as [[[[h1 es] d] c1]|] eqn:Es; [|discriminate].
-    destruct (round ans r h1) as [[[h2 r'] c2]|] eqn:Er; [|discriminate].
+  - destruct (step ans bi pend h) as [[[[h1 es] d] c1]|] eqn:Es; [|discriminate].
+    destruct (round ans bi r h1) as [[[h2 r'] c2]|] eqn:Er; [|discriminate].
     inversion Hr; subst. cbn [map fst concat]. rewrite !app_length.
     apply step_count in Es. apply IH in Er. lia.
 Qed.
 
-Lemma loop_fuel ans fuel : forall ms h, (unresolved ms < fuel)%nat -> loop fuel ans ms h <> OutOfFuel.
+Lemma loop_fuel ans bi fuel : forall ms h, (unresolved ms < fuel)%nat -> loop fuel ans bi ms h <> OutOfFuel.
 Proof.
   induction fuel as [|f IH]; intros ms h Hlt; [lia|]. cbn [loop].
-  destruct (round ans ms h) as [[[h' ms'] c]|] eqn:Er; [|discriminate].
+  destruct (round ans bi ms h) as [[[h' ms'] c]|] eqn:Er; [|discriminate].
   apply round_count in Er.
   destruct (Nat.ltb 0 (unresolved ms') && Nat.ltb 0 c)%bool eqn:Eb.
   - apply andb_true_iff in Eb as [_ Ec]. apply Nat.ltb_lt in Ec. apply IH. lia.
   - destruct (Nat.ltb 0 (unresolved ms')); discriminate.
 Qed.
 
-Theorem load_terminates ans models : load ans models <> OutOfFuel.
+Theorem load_terminates ans bi models : load ans bi models <> OutOfFuel.
 Proof.
   unfold load. apply loop_fuel. unfold unresolved. rewrite map_map. cbn [fst]. rewrite map_id. lia.
 Qed.
+
+Theorem load_repo_terminates ans bi gms : load_repo ans bi gms <> OutOfFuel.
+Proof.
+  unfold load_repo. pose proof (load_terminates ans bi (fresh_refs gms)) as H.
+  destruct (load ans bi (fresh_refs gms)); try discriminate. contradiction.
+Qed.
+
+Theorem terminates_both ans bi gms :
+  load_repo ans bi gms <> OutOfFuel /\ forall models, load ans bi models <> OutOfFuel.
+Proof. split; [apply load_repo_terminates | intro; apply load_terminates]. Qed.
